@@ -26,7 +26,7 @@ CONSTANTS WithHist
 Stages == <<"hashes-1", "search-1", "hashes-2", "blocks-1">>
 HashAnswers  == {"correct", "empty", "garbage", "unknown-hashes", "too-many", "reversed", "silent", "silent-while-another-remote-sends-hashes"}
 BlockAnswers == {"correct", "empty", "garbage", "nil-momentum", "unrequested", "height-below-window", "height-above-window",
-                 "duplicated", "too-many", "silent"}
+                 "duplicated", "too-many", "silent", "tampered-signature"}
 SearchAnswers == {"correct", "empty", "garbage", "unknown-hashes", "too-many", "silent"}
 Answers(st) == IF st = "blocks-1" THEN BlockAnswers ELSE IF st = "search-1" THEN SearchAnswers ELSE HashAnswers
 
